@@ -63,6 +63,7 @@ type Scenario struct {
 	Values    []interface{}  `json:"values,omitempty"` // C06 model values as JSON
 	Kinds     []string       `json:"kinds,omitempty"`
 	Spellings []string       `json:"spellings,omitempty"` // C11
+	Plans     [][]sim.Fault  `json:"fault_plans,omitempty"` // C08: every plan is run
 }
 
 func (s *Scenario) Clone() *Scenario {
@@ -82,6 +83,7 @@ type Verdict struct {
 	Inconclusive string // non-empty: the run could not be judged (counted, never reported)
 
 	Signature string   // scenario signature for the distinct_nontrivial count ("" = trivial)
+	Sigs      []string // additional signatures (a run that exercises several cases)
 	Probes    []string // named rare conditions hit in this run
 	Steps     int64
 	Requests  int
@@ -90,6 +92,16 @@ type Verdict struct {
 	OrderSig  uint64         // hash of the map orders used
 	SchedSig  uint64
 	Evals     int // oracle evaluations in this run
+	Max       map[string]float64 // named maxima (aggregated with max)
+}
+
+func (v *Verdict) max(name string, x float64) {
+	if v.Max == nil {
+		v.Max = map[string]float64{}
+	}
+	if x > v.Max[name] {
+		v.Max[name] = x
+	}
 }
 
 func (v *Verdict) fail(clause, format string, args ...interface{}) *Verdict {
@@ -199,6 +211,7 @@ func ExpandWorld(w *model.World, o Opts, faults []sim.Fault, orderKey uint64, bu
 		PathLoader:          store.Loader(ex.Log),
 	}
 	ctx := sim.NewOpCtx(orderKey, budget)
+	ctx.Funcs = FuncCounts
 	ex.Ctx = ctx
 	ex.Out = sim.RunSeq(ctx, func() {
 		ex.Err = spec.ExpandSpec(sw, opts)
@@ -319,3 +332,13 @@ func setStr(m map[string]bool) string {
 
 // nontrivial reports whether a world exercises references at all.
 func nontrivialReach(reach *model.Reach) bool { return len(reach.Holders) > 0 }
+
+// CanonRef is the form a reference string has once a document was decoded into the package's
+// types (what a caller sees as Ref.String()); used where the oracle says "verbatim".
+func CanonRef(r string) string {
+	ref, err := spec.NewRef(r)
+	if err != nil {
+		return r
+	}
+	return ref.String()
+}
